@@ -29,7 +29,10 @@ Theorem C14_in_full : forall s c o a r evs b idx i, eff s (hdr_of o) = Some (b, 
   Forall (fun ev => Some (ev_cuid ev) = to_int (effective_mapping s idx) (c_uid c) /\
                     Some (ev_cgid ev) = to_int (effective_mapping s idx) (c_gid c)) evs.
 Proof. exact in_full. Qed.
-Theorem C14_in_setattr : forall s c n u g a r ev evs, wf s -> vfs_op s c (OSetattr n u g) a = (r, ev :: evs) ->
+(* for EVERY combination of valid bits (UID only, GID only, both, neither, with or without other bits): the owner
+   ids handed to the backend are both translated, so uid is translated whenever FATTR_UID is set and gid whenever
+   FATTR_GID is set, independently of each other *)
+Theorem C14_in_setattr : forall s c n u g valid a r ev evs, wf s -> vfs_op s c (OSetattr n u g valid) a = (r, ev :: evs) ->
   exists b idx i, eff s n = Some (b, idx, i) /\
     Some (ev_suid ev) = to_int (effective_mapping s idx) u /\ Some (ev_sgid ev) = to_int (effective_mapping s idx) g.
 Proof. exact setattr_in. Qed.
